@@ -1210,6 +1210,223 @@ func vC06AbsHeader(raw []byte) string {
 		binary.BigEndian.Uint16(raw[4:]), binary.BigEndian.Uint16(raw[6:]), binary.BigEndian.Uint16(raw[8:]), binary.BigEndian.Uint16(raw[10:]))
 }
 
+// vC06Runner serves one (packet, script) step on the real entry and writes its case.
+type vC06Runner struct {
+	env     *vC06Env
+	f       *os.File
+	clients []netip.AddrPort
+	prev    *vC06Step
+}
+
+func (rn *vC06Runner) one(gq *vC06Q, sc *vC06Script, tr, ci, cli int, qid uint16, tune bool, tuneOff int, kprefix string) {
+	env, f, clients, prev := rn.env, rn.f, rn.clients, rn.prev
+	client := clients[cli]
+	raw := gq.raw
+	if tr == vC06DOQ && len(raw) >= 2 {
+		raw[0], raw[1] = 0, 0 // RFC 9250: clients send ID 0
+	}
+	body := new(dns.Msg)
+	bodyOK := body.Unpack(raw) == nil
+	if bodyOK {
+		vC06Facts(gq, body)
+	} else {
+		vC06Facts(gq, nil)
+	}
+
+	// boundary tuning of the filler on UDP: aim the shaped length at limit-1 / limit / limit+1
+	if tune && bodyOK && sc.write {
+		limit := vC06Limit(body)
+		target := limit + tuneOff
+		if sc.fill == 0 {
+			sc.fill = 10
+		}
+		for it := 0; it < 4; it++ {
+			vC06Cur = sc
+			sc.tab = vC06NewTab()
+			_, cl := env.twin(ci, raw, client, sc)
+			if cl == 0 || cl == target {
+				break
+			}
+			nf := sc.fill + target - cl
+			if nf < 1 {
+				break
+			}
+			sc.fill = nf
+		}
+	}
+	step := vC06MkStep(tr, ci, cli, qid, false, raw, sc)
+
+	tab := vC06NewTab()
+	bodyCoq := "None"
+	if bodyOK {
+		bodyCoq = "(Some (" + tab.absMsg(body, nil) + "))"
+	}
+	// the real run
+	sc.tab = tab
+	sc.called, sc.dn, sc.foreign, sc.undecoded, sc.extraOpt, sc.wireTried = false, "", false, false, false, false
+	vC06Cur = sc
+	reply := env.run(tr, ci, append([]byte(nil), raw...), client, qid)
+	called, dn, foreign, strict, extraOpt := sc.called, sc.dn, sc.foreign, sc.undecoded, sc.extraOpt
+	wireTried, blen, hasd, edeWire := sc.wireTried, sc.blen, sc.hasd, sc.edeCoq
+	// the length oracle
+	ulen, clen := 0, 0
+	if tr == vC06UDP && bodyOK {
+		ulen, clen = env.twin(ci, raw, client, sc)
+	}
+	_ = ulen
+	vC06Cur = nil
+
+	goFail := ""
+	obsCoq := "None"
+	oulen, oclen := 0, 0
+	var obs *dns.Msg
+	if reply != nil {
+		obs = new(dns.Msg)
+		if err := obs.Unpack(reply); err != nil {
+			goFail = "reply does not unpack: " + err.Error()
+			obs = nil
+		} else {
+			obsCoq = "(Some (" + tab.absMsg(obs, nil) + "))"
+			oulen = obs.Len() // an unpacked message has Compress = false
+			cm := obs.Copy()
+			cm.Compress = true
+			oclen = cm.Len()
+		}
+	}
+	dnCoq := "None"
+	if dn != "" {
+		dnCoq = "(Some (" + dn + "))"
+	}
+
+	// configuration facts and oracles (server cookie, ECS clamp) for this client
+	cfg := env.cfgs[ci]
+	nsidCoq := "None"
+	if cfg.NSID != "" {
+		nsidCoq = fmt.Sprintf("(Some (mk_eopt 3 %d %s))", len(cfg.NSID), new(big.Int).SetBytes([]byte(cfg.NSID)).String())
+	}
+	cookieCoq := "0"
+	if gq.cookie != "" {
+		ip := net.IP(client.Addr().AsSlice())
+		sck := dnsutil.GenerateServerCookie(cfg.CookieSecret, ip.String(), gq.cookie)
+		b, _ := hex.DecodeString(sck)
+		cookieCoq = new(big.Int).SetBytes(b).String()
+	}
+	ecsCoq := "None"
+	if gq.ecsOpt != nil && env.pol[ci].Allows(client.Addr()) {
+		if fwd := env.pol[ci].Clamp(gq.ecsOpt); fwd != nil {
+			ecsCoq = "(Some (" + vC06AbsEopt(fwd) + "))"
+		}
+	}
+	cfgCoq := fmt.Sprintf("(mk_cfg %s %s %s)", nsidCoq, cookieCoq, ecsCoq)
+
+	var coq string
+	if (tr == vC06UDP || tr == vC06TCP) && wireTried {
+		coq = fmt.Sprintf("CaseWire %s %s %s (%s) %s %s %s %s %s %d %d %s %d %d %d", vC06TrName[tr], cfgCoq, tab.table(), vC06AbsHeader(raw), bodyCoq, vC06B(strict), dnCoq,
+			vC06B(hasd), edeWire, blen, clen, obsCoq, len(reply), oulen, oclen)
+	} else if tr == vC06UDP || tr == vC06TCP {
+		coq = fmt.Sprintf("CaseRaw %s %s %s (%s) %s %s %s %d %s %d %d %d", vC06TrName[tr], cfgCoq, tab.table(), vC06AbsHeader(raw), bodyCoq, vC06B(strict), dnCoq, clen, obsCoq, len(reply), oulen, oclen)
+	} else if !bodyOK {
+		// DoH answers HTTP 400 / the DoQ handler closes the connection: no DNS reply to judge
+		if reply != nil {
+			goFail = "undecodable request got a DNS reply on " + vC06TrName[tr]
+		}
+		coq = ""
+	} else {
+		qm := body
+		if tr == vC06DOQ {
+			// the stream handler hands the chain the fresh ID, not the client's
+			qm = body.Copy()
+			qm.Id = qid
+		}
+		qmCoq := tab.absMsg(qm, nil)
+		coq = fmt.Sprintf("CaseMsg %s %s %s (%s) %s %d %s %d %d %d", vC06TrName[tr], cfgCoq, tab.table(), qmCoq, dnCoq, clen, obsCoq, len(reply), oulen, oclen)
+	}
+
+	// kind
+	k := strings.ToLower(vC06TrName[tr]) + "-"
+	switch {
+	case obs == nil && !called:
+		k += "silent"
+	case obs == nil:
+		k += "nowrite"
+	case !called && obs.Rcode == dns.RcodeBadVers:
+		k += "badvers"
+	case !called && obs.Rcode == dns.RcodeNotImplemented:
+		k += "notimp"
+	case !called && obs.Rcode == dns.RcodeFormatError:
+		k += "formerr"
+	case !called:
+		k += "other"
+	case obs.Truncated && len(obs.Answer) == 0 && sc.write && !sc.tc:
+		k += "truncated"
+	default:
+		k += "shaped"
+		if strict {
+			k += "-strict"
+		}
+	}
+	if wireTried {
+		k += "-wire"
+	}
+	// classes of input that used to trip the four findings fixed by fb9758c (kept as kinds so
+	// that the evidence shows they are still generated; they must now pass strictly)
+	switch {
+	case !called && obs != nil && obs.Rcode == dns.RcodeBadVers && ecsCoq != "None":
+		k += "-ecs"
+	case !called && obs != nil && obs.Rcode == dns.RcodeBadVers && tr == vC06UDP && len(raw) > vC06Limit(body):
+		k += "-bigquery"
+	case called && extraOpt && gq.hasOpt && obs != nil:
+		k += "-extraopt"
+	case called && foreign && gq.hasOpt && obs != nil:
+		k += "-foreignopt"
+	}
+	if (tr == vC06UDP || tr == vC06TCP) && len(raw) < 12 {
+		k += "-short"
+	}
+	k = kprefix + k
+	if coq != "" {
+		pkt, plen := []byte(nil), 0
+		if tr == vC06UDP || tr == vC06TCP {
+			pkt, plen = raw[:min(12, len(raw))], len(raw)
+		}
+		coq = fmt.Sprintf("CaseBytes %s %d %s (%s)", vC06Octets(pkt), plen, vC06Octets(vC06OptTail(obs, reply)), coq)
+	}
+	fkey := ""
+	relax := 0
+	if sc.optMode == 4 {
+		k += "-reqoptjunk"
+		relax = 1
+	}
+	nontrivial := !(called && !gq.hasOpt && sc.optMode == 0 && len(sc.ns) == 0)
+	rec := map[string]any{
+		"k": k, "coq": coq, "nontrivial": nontrivial,
+		"desc": map[string]any{"transport": vC06TrName[tr], "cfg": ci, "client": client.String(), "query_hex": hex.EncodeToString(raw),
+			"downstream": dn, "reply_hex": hex.EncodeToString(reply), "clen_oracle": clen, "step": step, "prev_step": prev},
+	}
+	rn.prev = step
+	if goFail == "" && tab.bad != "" {
+		goFail = "driver cannot abstract a record: " + tab.bad
+	}
+	if goFail != "" {
+		rec["go_fail"] = goFail
+	}
+	if fkey != "" {
+		rec["fkey"] = fkey
+	}
+	if relax != 0 && coq != "" {
+		rec["coq"] = fmt.Sprintf("CaseRelax %d (%s)", relax, coq)
+		relax = 0
+	}
+	b, _ := json.Marshal(rec)
+	f.Write(append(b, '\n'))
+	if relax != 0 && coq != "" {
+		// the same input judged without the clause the known finding breaks
+		rec2 := map[string]any{"k": k + "-relaxed", "coq": fmt.Sprintf("CaseRelax %d (%s)", relax, coq), "nontrivial": false, "desc": rec["desc"]}
+		b2, _ := json.Marshal(rec2)
+		f.Write(append(b2, '\n'))
+	}
+}
+
 func TestVerifC06Server(t *testing.T) {
 	outp := os.Getenv("VERIF_OUT")
 	if outp == "" {
@@ -1227,7 +1444,7 @@ func TestVerifC06Server(t *testing.T) {
 	clients := []netip.AddrPort{netip.MustParseAddrPort("192.0.2.7:5353"), netip.MustParseAddrPort("[2001:db8::7]:5353"), netip.MustParseAddrPort("203.0.113.9:4000")}
 
 	corpus := vC06CorpusFile("steps_server.json")
-	var prev *vC06Step
+	rn := &vC06Runner{env: env, f: f, clients: clients}
 	for c := 0; c < len(corpus)+n; c++ {
 		var gq *vC06Q
 		var sc *vC06Script
@@ -1257,212 +1474,160 @@ func TestVerifC06Server(t *testing.T) {
 				tune, tuneOff = true, r.Intn(3)-1
 			}
 		}
-		client := clients[cli]
-		raw := gq.raw
-		if tr == vC06DOQ && len(raw) >= 2 {
-			raw[0], raw[1] = 0, 0 // RFC 9250: clients send ID 0
-		}
-		body := new(dns.Msg)
-		bodyOK := body.Unpack(raw) == nil
-		if bodyOK {
-			vC06Facts(gq, body)
-		} else {
-			vC06Facts(gq, nil)
-		}
-
-		// boundary tuning of the filler on UDP: aim the shaped length at limit-1 / limit / limit+1
-		if tune && bodyOK && sc.write {
-			limit := vC06Limit(body)
-			target := limit + tuneOff
-			if sc.fill == 0 {
-				sc.fill = 10
-			}
-			for it := 0; it < 4; it++ {
-				vC06Cur = sc
-				sc.tab = vC06NewTab()
-				_, cl := env.twin(ci, raw, client, sc)
-				if cl == 0 || cl == target {
-					break
-				}
-				nf := sc.fill + target - cl
-				if nf < 1 {
-					break
-				}
-				sc.fill = nf
-			}
-		}
-		step := vC06MkStep(tr, ci, cli, qid, false, raw, sc)
-
-		tab := vC06NewTab()
-		bodyCoq := "None"
-		if bodyOK {
-			bodyCoq = "(Some (" + tab.absMsg(body, nil) + "))"
-		}
-		// the real run
-		sc.tab = tab
-		sc.called, sc.dn, sc.foreign, sc.undecoded, sc.extraOpt, sc.wireTried = false, "", false, false, false, false
-		vC06Cur = sc
-		reply := env.run(tr, ci, append([]byte(nil), raw...), client, qid)
-		called, dn, foreign, strict, extraOpt := sc.called, sc.dn, sc.foreign, sc.undecoded, sc.extraOpt
-		wireTried, blen, hasd, edeWire := sc.wireTried, sc.blen, sc.hasd, sc.edeCoq
-		// the length oracle
-		ulen, clen := 0, 0
-		if tr == vC06UDP && bodyOK {
-			ulen, clen = env.twin(ci, raw, client, sc)
-		}
-		_ = ulen
-		vC06Cur = nil
-
-		goFail := ""
-		obsCoq := "None"
-		oulen, oclen := 0, 0
-		var obs *dns.Msg
-		if reply != nil {
-			obs = new(dns.Msg)
-			if err := obs.Unpack(reply); err != nil {
-				goFail = "reply does not unpack: " + err.Error()
-				obs = nil
-			} else {
-				obsCoq = "(Some (" + tab.absMsg(obs, nil) + "))"
-				oulen = obs.Len() // an unpacked message has Compress = false
-				cm := obs.Copy()
-				cm.Compress = true
-				oclen = cm.Len()
-			}
-		}
-		dnCoq := "None"
-		if dn != "" {
-			dnCoq = "(Some (" + dn + "))"
-		}
-
-		// configuration facts and oracles (server cookie, ECS clamp) for this client
-		cfg := env.cfgs[ci]
-		nsidCoq := "None"
-		if cfg.NSID != "" {
-			nsidCoq = fmt.Sprintf("(Some (mk_eopt 3 %d %s))", len(cfg.NSID), new(big.Int).SetBytes([]byte(cfg.NSID)).String())
-		}
-		cookieCoq := "0"
-		if gq.cookie != "" {
-			ip := net.IP(client.Addr().AsSlice())
-			sck := dnsutil.GenerateServerCookie(cfg.CookieSecret, ip.String(), gq.cookie)
-			b, _ := hex.DecodeString(sck)
-			cookieCoq = new(big.Int).SetBytes(b).String()
-		}
-		ecsCoq := "None"
-		if gq.ecsOpt != nil && env.pol[ci].Allows(client.Addr()) {
-			if fwd := env.pol[ci].Clamp(gq.ecsOpt); fwd != nil {
-				ecsCoq = "(Some (" + vC06AbsEopt(fwd) + "))"
-			}
-		}
-		cfgCoq := fmt.Sprintf("(mk_cfg %s %s %s)", nsidCoq, cookieCoq, ecsCoq)
-
-		var coq string
-		if (tr == vC06UDP || tr == vC06TCP) && wireTried {
-			coq = fmt.Sprintf("CaseWire %s %s %s (%s) %s %s %s %s %s %d %d %s %d %d %d", vC06TrName[tr], cfgCoq, tab.table(), vC06AbsHeader(raw), bodyCoq, vC06B(strict), dnCoq,
-				vC06B(hasd), edeWire, blen, clen, obsCoq, len(reply), oulen, oclen)
-		} else if tr == vC06UDP || tr == vC06TCP {
-			coq = fmt.Sprintf("CaseRaw %s %s %s (%s) %s %s %s %d %s %d %d %d", vC06TrName[tr], cfgCoq, tab.table(), vC06AbsHeader(raw), bodyCoq, vC06B(strict), dnCoq, clen, obsCoq, len(reply), oulen, oclen)
-		} else if !bodyOK {
-			// DoH answers HTTP 400 / the DoQ handler closes the connection: no DNS reply to judge
-			if reply != nil {
-				goFail = "undecodable request got a DNS reply on " + vC06TrName[tr]
-			}
-			coq = ""
-		} else {
-			qm := body
-			if tr == vC06DOQ {
-				// the stream handler hands the chain the fresh ID, not the client's
-				qm = body.Copy()
-				qm.Id = qid
-			}
-			qmCoq := tab.absMsg(qm, nil)
-			coq = fmt.Sprintf("CaseMsg %s %s %s (%s) %s %d %s %d %d %d", vC06TrName[tr], cfgCoq, tab.table(), qmCoq, dnCoq, clen, obsCoq, len(reply), oulen, oclen)
-		}
-
-		// kind
-		k := strings.ToLower(vC06TrName[tr]) + "-"
-		switch {
-		case obs == nil && !called:
-			k += "silent"
-		case obs == nil:
-			k += "nowrite"
-		case !called && obs.Rcode == dns.RcodeBadVers:
-			k += "badvers"
-		case !called && obs.Rcode == dns.RcodeNotImplemented:
-			k += "notimp"
-		case !called && obs.Rcode == dns.RcodeFormatError:
-			k += "formerr"
-		case !called:
-			k += "other"
-		case obs.Truncated && len(obs.Answer) == 0 && sc.write && !sc.tc:
-			k += "truncated"
-		default:
-			k += "shaped"
-			if strict {
-				k += "-strict"
-			}
-		}
-		if wireTried {
-			k += "-wire"
-		}
-		// classes of input that used to trip the four findings fixed by fb9758c (kept as kinds so
-		// that the evidence shows they are still generated; they must now pass strictly)
-		switch {
-		case !called && obs != nil && obs.Rcode == dns.RcodeBadVers && ecsCoq != "None":
-			k += "-ecs"
-		case !called && obs != nil && obs.Rcode == dns.RcodeBadVers && tr == vC06UDP && len(raw) > vC06Limit(body):
-			k += "-bigquery"
-		case called && extraOpt && gq.hasOpt && obs != nil:
-			k += "-extraopt"
-		case called && foreign && gq.hasOpt && obs != nil:
-			k += "-foreignopt"
-		}
-		if (tr == vC06UDP || tr == vC06TCP) && len(raw) < 12 {
-			k += "-short"
-		}
+		kp := ""
 		if fromCorpus {
-			k = "corpus-" + k
+			kp = "corpus-"
 		}
-		if coq != "" {
-			pkt, plen := []byte(nil), 0
-			if tr == vC06UDP || tr == vC06TCP {
-				pkt, plen = raw[:min(12, len(raw))], len(raw)
+		rn.one(gq, sc, tr, ci, cli, qid, tune, tuneOff, kp)
+	}
+}
+
+// ---------------------------------------------------------------- exhaustive small scopes (thorough tier only)
+
+// TestVerifC06Enum is the thorough tier's exhaustive part.
+//
+// Part 1 — the header sweep: for both listeners and nine section-count tuples, ALL 65 536 values of the
+// flags word of a header-only packet go through udpEngine.serve / tcpEngine.serveFrame (acceptHeader,
+// rejectInPlace, the undecodable-body FORMERR).  One case per (listener, counts) carries the observed
+// outcomes run-length encoded (0 = silence, 1 + the 12 reply octets as a number otherwise); Coq expands
+// them and compares each with the model (check) and with the accept table of the statement (spec).
+//
+// Part 2 — the shaper grid: {QUERY, NOTIFY} x RD x AD x CD x {AA|TC|RA|Z all clear, all set} x
+// {no OPT, bare OPT DO=0/1, size 512, version 1, each of the 14 option kinds} x {UDP, TCP} x four
+// downstream scripts (signed answer without OPT; the request's OPT re-attached with an EDE; an own OPT
+// with ECS, keepalive, EDE and a cookie; a byte-path hit with a stored EDE), each as an ordinary case.
+func TestVerifC06Enum(t *testing.T) {
+	outp := os.Getenv("VERIF_OUT")
+	if outp == "" {
+		t.Skip("VERIF_OUT not set")
+	}
+	f, err := os.Create(outp)
+	if err != nil {
+		t.Fatal(err)
+	}
+	defer f.Close()
+	env := vC06NewEnv()
+	clients := []netip.AddrPort{netip.MustParseAddrPort("192.0.2.7:5353"), netip.MustParseAddrPort("[2001:db8::7]:5353"), netip.MustParseAddrPort("203.0.113.9:4000")}
+
+	// part 1
+	counts := [][4]uint16{{1, 0, 0, 0}, {1, 1, 1, 2}, {0, 0, 0, 0}, {2, 0, 0, 0}, {1, 2, 0, 0}, {1, 0, 2, 0}, {1, 0, 0, 3}, {1, 1, 1, 3}, {65535, 65535, 65535, 65535}}
+	if vC06EnvInt("VERIF_N", 1) > 0 {
+		for _, tr := range []int{vC06UDP, vC06TCP} {
+			for ci, cnt := range counts {
+				id := uint16(0xA55A ^ (ci * 257))
+				var runs []string
+				cur, n := "", 0
+				goFail := ""
+				flush := func() {
+					if n > 0 {
+						runs = append(runs, fmt.Sprintf("(%d, %s)", n, cur))
+					}
+				}
+				for flags := 0; flags < 65536; flags++ {
+					var pkt [12]byte
+					binary.BigEndian.PutUint16(pkt[0:], id)
+					binary.BigEndian.PutUint16(pkt[2:], uint16(flags))
+					for i := 0; i < 4; i++ {
+						binary.BigEndian.PutUint16(pkt[4+2*i:], cnt[i])
+					}
+					reply := env.run(tr, 0, pkt[:], clients[0], 0)
+					o := "0"
+					if reply != nil {
+						if len(reply) != 12 {
+							if goFail == "" {
+								goFail = fmt.Sprintf("flags %#04x: the rejection is %d octets long, not 12", flags, len(reply))
+							}
+							o = "1"
+						} else {
+							v := new(big.Int).SetBytes(reply)
+							o = v.Add(v, big.NewInt(1)).String()
+						}
+					}
+					if o != cur {
+						flush()
+						cur, n = o, 0
+					}
+					n++
+				}
+				flush()
+				coq := fmt.Sprintf("CaseSweep %s %d %d %d %d %d [%s]", vC06TrName[tr], id, cnt[0], cnt[1], cnt[2], cnt[3], strings.Join(runs, "; "))
+				rec := map[string]any{"k": "sweep-" + strings.ToLower(vC06TrName[tr]), "coq": coq, "nontrivial": true,
+					"desc": map[string]any{"transport": vC06TrName[tr], "id": id, "counts": cnt, "runs": len(runs),
+						"what": "all 65536 flag words of a header-only packet; outcomes run-length encoded in the case"}}
+				if goFail != "" {
+					rec["go_fail"] = goFail
+				}
+				b, _ := json.Marshal(rec)
+				f.Write(append(b, '\n'))
 			}
-			coq = fmt.Sprintf("CaseBytes %s %d %s (%s)", vC06Octets(pkt), plen, vC06Octets(vC06OptTail(obs, reply)), coq)
 		}
-		fkey := ""
-		relax := 0
-		if sc.optMode == 4 {
-			k += "-reqoptjunk"
-			relax = 1
-		}
-		nontrivial := !(called && !gq.hasOpt && sc.optMode == 0 && len(sc.ns) == 0)
-		rec := map[string]any{
-			"k": k, "coq": coq, "nontrivial": nontrivial,
-			"desc": map[string]any{"transport": vC06TrName[tr], "cfg": ci, "client": client.String(), "query_hex": hex.EncodeToString(raw),
-				"downstream": dn, "reply_hex": hex.EncodeToString(reply), "clen_oracle": clen, "step": step, "prev_step": prev},
-		}
-		prev = step
-		if goFail == "" && tab.bad != "" {
-			goFail = "driver cannot abstract a record: " + tab.bad
-		}
-		if goFail != "" {
-			rec["go_fail"] = goFail
-		}
-		if fkey != "" {
-			rec["fkey"] = fkey
-		}
-		if relax != 0 && coq != "" {
-			rec["coq"] = fmt.Sprintf("CaseRelax %d (%s)", relax, coq)
-			relax = 0
-		}
-		b, _ := json.Marshal(rec)
-		f.Write(append(b, '\n'))
-		if relax != 0 && coq != "" {
-			// the same input judged without the clause the known finding breaks
-			rec2 := map[string]any{"k": k + "-relaxed", "coq": fmt.Sprintf("CaseRelax %d (%s)", relax, coq), "nontrivial": false, "desc": rec["desc"]}
-			b2, _ := json.Marshal(rec2)
-			f.Write(append(b2, '\n'))
+	}
+
+	// part 2
+	rn := &vC06Runner{env: env, f: f, clients: clients}
+	r := rand.New(rand.NewSource(606))
+	type optVar struct {
+		present bool
+		size    uint16
+		do      bool
+		ver     uint8
+		kind    int // -1: no option
+	}
+	vars := []optVar{{}, {true, 1232, false, 0, -1}, {true, 1232, true, 0, -1}, {true, 512, false, 0, -1}, {true, 4096, false, 1, -1}}
+	for k := 0; k <= 13; k++ {
+		vars = append(vars, optVar{true, 4096, k%2 == 1, 0, k})
+	}
+	scripts := []func() *vC06Script{
+		func() *vC06Script {
+			return &vC06Script{write: true, ad: true, ra: true, an: vC06AnTpl[1], ns: vC06NsTpl[2], wireEDE: -1}
+		},
+		func() *vC06Script {
+			return &vC06Script{write: true, ad: true, ra: true, an: vC06AnTpl[0], optMode: 1, optKind: []int{10}, optSeed: 11, wireEDE: -1}
+		},
+		func() *vC06Script {
+			return &vC06Script{write: true, ad: true, ra: true, an: vC06AnTpl[2], ns: vC06NsTpl[3], optMode: 2, optKind: []int{0, 8, 10, 3}, optSeed: 12, ownSize: 4096, ownDo: true, wireEDE: -1}
+		},
+		func() *vC06Script {
+			return &vC06Script{write: true, ad: true, ra: true, an: vC06AnTpl[0], wire: true, wireEDE: 3}
+		},
+	}
+	qid := uint16(1)
+	for _, tr := range []int{vC06UDP, vC06TCP} {
+		for _, opcode := range []int{dns.OpcodeQuery, dns.OpcodeNotify} {
+			for bits := 0; bits < 16; bits++ {
+				for _, ov := range vars {
+					q := new(dns.Msg)
+					q.SetQuestion("example.com.", dns.TypeA)
+					q.Id = 0x0600 + qid
+					q.Opcode = opcode
+					q.RecursionDesired = bits&1 != 0
+					q.AuthenticatedData = bits&2 != 0
+					q.CheckingDisabled = bits&4 != 0
+					if bits&8 != 0 {
+						q.Authoritative, q.Truncated, q.RecursionAvailable, q.Zero = true, true, true, true
+					}
+					if ov.present {
+						o := &dns.OPT{Hdr: dns.RR_Header{Name: ".", Rrtype: dns.TypeOPT}}
+						o.SetUDPSize(ov.size)
+						o.SetVersion(ov.ver)
+						if ov.do {
+							o.SetDo()
+						}
+						if ov.kind >= 0 {
+							o.Option = append(o.Option, vC06MkOpt(ov.kind, r))
+						}
+						q.Extra = append(q.Extra, o)
+					}
+					raw, err := q.Pack()
+					if err != nil {
+						t.Fatalf("enumeration: query does not pack: %v", err)
+					}
+					for si, mk := range scripts {
+						qid++
+						rn.one(&vC06Q{raw: append([]byte(nil), raw...)}, mk(), tr, 3, 0, qid, false, 0, fmt.Sprintf("enum%d-", si))
+					}
+				}
+			}
 		}
 	}
 }
